@@ -46,7 +46,7 @@ theorem exec_frontend (e : Env) (s : Sig) (pr : Bool) (f : Fe) (hrun : e.backend
       ({ queue := [], written := f.written ++ f.queue ++ notices e s },
        if s.graceful then .exit0 else .diedBy s) := by
   rw [onSignal_frontend]
-  obtain ⟨run, info, crit, wait⟩ := e
+  obtain ⟨run, info, crit, wait, gu⟩ := e
   simp only at hrun
   subst hrun
   cases hg : s.graceful <;> cases info <;> cases crit <;> cases wait <;>
@@ -70,6 +70,8 @@ theorem LInv.init : LInv {} := by
   constructor <;> simp
 
 abbrev R := LParams.repaired
+
+@[simp] theorem R_wait : R.waitOnExit = true := rfl
 
 /-- the backend thread (if any) drained and joined, the once-flag fresh -/
 def Life.joinedAll (s : Life) : Life := { s with running := false, onceDone := false, workerTid := 0, joined := s.spawned }
